@@ -189,6 +189,7 @@ pub fn corr(ctx: &mut Ctx) {
                 std::fs::write(&inp, &case.input).unwrap();
                 let _ = std::fs::remove_file(&outp);
                 let dest = if in_place { OutFile::Path { path: None, preserve_attrs: false } } else { OutFile::Path { path: Some(outp.clone()), preserve_attrs: false } };
+                note_current(&case.replay_json());
                 verif::arm_deadline(Some(k));
                 let r = pool.install(|| crate::util::catch(|| oxipng::optimize(&InFile::Path(inp.clone()), &dest, &o)));
                 verif::disarm_deadline();
